@@ -432,5 +432,87 @@ theorem tree_paths_exist {I : Inst α} {ok : Nat → Bool} {c : Nat → α} (U :
     · exact h
   exact SearchTree.backtrack_ok hinv (Or.inr hv)
 
+/-! ## C. The edge-oriented wrapper `search_algorithm::run_edge_oriented` -/
+
+/-- the origin-edge element the wrapper puts in front of the route (and into a destination-less
+tree): zero costs, the initial state -/
+def originBranch (c : Config α) (source : Nat) (e1 : EdgeRec α) : Branch α :=
+  { terminal := e1.src, edge := source, access := zero, traversal := zero,
+    state := initialState c.feats }
+
+/-- the destination-edge element the wrapper appends: zero costs, the state it is given -/
+def destBranch (tgt : Nat) (e2 : EdgeRec α) (st : List α) : Branch α :=
+  { terminal := e2.src, edge := tgt, access := zero, traversal := zero, state := st }
+
+/-- `Config.runVertex` is `runVertexOriented` on the configuration's instance, repackaged -/
+theorem runVertex_ok {c : Config α} {source : Nat} {target : Option Nat} {sched : List Nat}
+    {r : AlgResult α} (h : c.runVertex source target sched = .ok r) :
+    ∃ res, runVertexOriented c.inst source target sched = .ok res ∧
+      r.trees = [res.final.sol] ∧
+      r.routes = (match res.route with | some x => [x] | none => []) ∧
+      r.iterations = res.final.iters := by
+  unfold Config.runVertex at h
+  split at h
+  · cases h
+  · rename_i res hres
+    cases h
+    exact ⟨res, hres, rfl, rfl, rfl⟩
+
+/-- the wrapper's `fixAll` applies `fix` to every route and fails if one application fails -/
+theorem fixAll_ok (fix : List (Branch α) → Except ErrKind (List (Branch α))) :
+    ∀ (rts out : List (List (Branch α))),
+      Config.runEdge.fixAll fix rts = .ok out → List.Forall₂ (fun rt a => fix rt = .ok a) rts out
+  | [], out, h => by
+    simp only [Config.runEdge.fixAll] at h
+    cases h
+    exact List.Forall₂.nil
+  | rt :: rest, out, h => by
+    simp only [Config.runEdge.fixAll] at h
+    split at h
+    · rename_i a b ha hb
+      cases h
+      exact List.Forall₂.cons ha (fixAll_ok fix rest b hb)
+    · cases h
+    · cases h
+
+/-- **shape, destination given, edges not adjacent**: the wrapper runs the vertex-oriented search
+from the origin edge's head to the destination edge's tail, returns its tree unchanged, and puts
+the origin element in front of and the destination element (carrying the last inner state) behind
+the inner route.  (Either direction.) -/
+theorem runEdge_nonadjacent (c : Config α) (source tgt : Nat) (sched : List Nat)
+    (r : AlgResult α) (e1 e2 : EdgeRec α) (h1 : c.edges[source]? = some e1)
+    (h2 : c.edges[tgt]? = some e2) (hne : source ≠ tgt) (hnadj : e1.dst ≠ e2.src)
+    (h : c.runEdge source (some tgt) sched = .ok r) :
+    ∃ res inner last, runVertexOriented c.inst e1.dst (some e2.src) sched = .ok res ∧
+      res.route = some inner ∧ inner.getLast? = some last ∧
+      r.trees = [res.final.sol] ∧ r.iterations = res.final.iters + 2 ∧
+      r.routes = [originBranch c source e1 :: inner ++ [destBranch tgt e2 last.state]] := by
+  unfold Config.runEdge at h
+  simp only [h1, h2, if_neg hne, if_neg hnadj] at h
+  split at h
+  · cases h
+  · rename_i r' hr'
+    obtain ⟨res, hres, htrees, hroutes, hiters⟩ := runVertex_ok hr'
+    obtain ⟨_, inner, hinner, _⟩ := runVertexOriented_some hres
+    rw [hinner] at hroutes
+    simp only at hroutes
+    split at h
+    · cases h
+    · split at h
+      · cases h
+      · rename_i routes hfix
+        cases h
+        rw [hroutes] at hfix
+        have hf := fixAll_ok _ _ _ hfix
+        cases hf with
+        | cons ha hrest =>
+          cases hrest
+          rename_i a
+          split at ha
+          · cases ha
+          · rename_i last hlast
+            cases ha
+            exact ⟨res, inner, last, hres, hinner, hlast, htrees, by rw [hiters], rfl⟩
+
 end SearchRoute
 end Compass
